@@ -23,7 +23,7 @@ NAME = "H"
 PROPERTY = "C12"
 RUNS = {"quick": 220, "thorough": 5000}
 RUN_WALL_CAP = 300.0
-REQUIRED_PROBES = {"quick": ["kets_list", "density_list", "hierarchy_not_last", "hierarchy_then_ppt", "level2", "dims_2x3", "complex_states", "bell_list", "primal_value", "local_unitary_checked", "two_lists_same_shape"], "thorough": ["kets_list", "density_list", "hierarchy_not_last", "hierarchy_then_ppt", "level2", "level2_2x3", "dims_2x3", "complex_states", "bell_list", "primal_value", "local_unitary_checked"]}
+REQUIRED_PROBES = {"quick": ["kets_list", "density_list", "hierarchy_not_last", "hierarchy_then_ppt", "level2", "dims_2x3", "complex_states", "bell_list", "primal_value", "local_unitary_checked", "two_lists_same_shape", "same_ensemble_parties_swapped"], "thorough": ["kets_list", "density_list", "hierarchy_not_last", "hierarchy_then_ppt", "level2", "level2_2x3", "dims_2x3", "complex_states", "bell_list", "primal_value", "local_unitary_checked"]}
 COMPONENTS = {"real": ["toqito.state_opt.ppt_distinguishability (primal and dual)", "toqito.state_opt.symmetric_extension_hierarchy", "toqito.state_opt.state_distinguishability", "toqito.channels.partial_trace / partial_transpose (cvxpy branch)", "toqito.perms.symmetric_projection", "picos + cvxopt, cvxpy + SCS/Clarabel"], "stub": []}
 RULE = ("one run = one caller-owned list of 2..4 states on 2x2 or 2x3 (column kets / density matrices / 1-D vectors where accepted; real and complex; arbitrary prior; or the four Bell kets) reused by 3..6 calls in seeded order: "
         "ppt_distinguishability (party 0 or 1, primal or dual), symmetric_extension_hierarchy (level 1 or 2, dim as list / scalar / omitted), state_distinguishability; "
@@ -190,7 +190,22 @@ def run(cs, tier, run_index):
 
     # a second caller-owned list of the same shape and different contents, used in between
     L2, dims2 = None, dims
-    if cs.s("config:two").draw(3) == 2 or run_index % 8 == 7:
+    swapped = False
+    if dims[0] != dims[1] and meta["kind"] != "vec1d" and (cs.s("config:two").draw(3) == 1 or run_index % 8 == 6):
+        # the same ensemble with the two parties written in the other order (2x3 <-> 3x2): every value must
+        # be the same, and anything keyed on the total dimension instead of the split collides
+        def swap_parties(x):
+            d0, d1 = dims
+            if x.ndim == 2 and x.shape[1] == 1:
+                return x.reshape(d0, d1).T.reshape(-1, 1).copy()
+            return x.reshape(d0, d1, d0, d1).transpose(1, 0, 3, 2).reshape(d0 * d1, d0 * d1).copy()
+
+        L2 = [swap_parties(x) for x in L]
+        probs2 = None if probs is None else list(probs)
+        dims2 = dims[::-1]
+        swapped = True
+        res.probe("same_ensemble_parties_swapped")
+    elif cs.s("config:two").draw(3) == 2 or run_index % 8 == 7:
         same = cs.s("config:two").draw(3) != 0
         L2, probs2, dims2, _ = draw_states(cs.s("states:2"), -1, like=meta if same else None)
         if len(L2[0].shape) == 1 and meta["kind"] != "vec1d":
@@ -199,8 +214,14 @@ def run(cs, tier, run_index):
     pristine, vals, names = {}, {}, []
     for k, op in enumerate(ops):
         key = json.dumps(op, sort_keys=True)
+        other = None
         if L2 is not None and cs.s("ops:which").draw(2) and not (meta["kind"] == "vec1d" and op["op"] == "seh"):
-            call_value(op_fn(lib, L2, probs2, dims2, op), res, op["op"] + "(other list)")
+            op2 = dict(op)
+            if swapped and op["op"] == "ppt":
+                op2["party"] = 1 - op["party"]
+            if swapped and op["op"] == "seh" and op["dim"] == "omitted":
+                op2["dim"] = "list"
+            other = call_value(op_fn(lib, L2, probs2, dims2, op2), res, op["op"] + "(other list)")
         out = call_value(op_fn(lib, L, probs, dims, op), res, op["op"] + ("_" + op["form"] if op["op"] == "ppt" else ""))
         names.append(op["op"])
         res.log.add("op", k, key, out[1] if out[0] == "ok" else out[:2])
@@ -218,6 +239,10 @@ def run(cs, tier, run_index):
         if out[0] != "ok":
             continue
         v = out[1]
+        if swapped and other is not None and other[0] == "ok":
+            res.checks_workload += 1
+            if abs(other[1] - v) > TAU:
+                res.violate("C12.val.party", why="the same ensemble with the parties written in the other order gives another value", op=op, value=v, parties_swapped=other[1], **meta)
         if k == 0:
             pristine[key] = v
         else:
